@@ -15,7 +15,7 @@ type Lin struct {
 	T map[int]*big.Int
 }
 
-func linConst(k int64) Lin { return Lin{K: big.NewInt(k), T: map[int]*big.Int{}} }
+func linConst(k int64) Lin  { return Lin{K: big.NewInt(k), T: map[int]*big.Int{}} }
 func linBig(k *big.Int) Lin { return Lin{K: new(big.Int).Set(k), T: map[int]*big.Int{}} }
 func linVar(id int) Lin     { return Lin{K: big.NewInt(0), T: map[int]*big.Int{id: big.NewInt(1)}} }
 
@@ -54,10 +54,10 @@ func (a Lin) scale(c *big.Int) Lin {
 	return r
 }
 
-func (a Lin) neg() Lin          { return a.scale(big.NewInt(-1)) }
-func (a Lin) sub(b Lin) Lin     { return a.add(b.neg()) }
-func (a Lin) addK(k int64) Lin  { r := a.clone(); r.K.Add(r.K, big.NewInt(k)); return r }
-func (a Lin) isConst() bool     { return len(a.T) == 0 }
+func (a Lin) neg() Lin           { return a.scale(big.NewInt(-1)) }
+func (a Lin) sub(b Lin) Lin      { return a.add(b.neg()) }
+func (a Lin) addK(k int64) Lin   { r := a.clone(); r.K.Add(r.K, big.NewInt(k)); return r }
+func (a Lin) isConst() bool      { return len(a.T) == 0 }
 func (a Lin) constVal() *big.Int { return a.K }
 
 func (a Lin) equal(b Lin) bool {
